@@ -1759,6 +1759,59 @@ def chainmap_first_hit(program, log):
         rewrite(f.node.body, f)
 
 
+def pop_default_loop(program, log):
+    """`for T in D.pop(K, ()): BODY` (BODY never mentions D) reads
+    `if K in D: for T in D[K]: BODY` followed by `del D[K]`: an absent key
+    iterates nothing, a present one is forgotten - before or after BODY makes
+    no difference to a BODY that cannot see D."""
+    import copy as _copy
+
+    def rewrite(body, f):
+        for st in list(body):
+            for fld in ('body', 'orelse', 'finalbody'):
+                sub_ = getattr(st, fld, None)
+                if isinstance(sub_, list) and sub_ and isinstance(
+                        sub_[0], ast.stmt):
+                    rewrite(sub_, f)
+            for h in getattr(st, 'handlers', []) or []:
+                rewrite(h.body, f)
+            if not (isinstance(st, ast.For) and not st.orelse
+                    and isinstance(st.iter, ast.Call)
+                    and isinstance(st.iter.func, ast.Attribute)
+                    and st.iter.func.attr == 'pop'
+                    and dotted(st.iter.func.value)
+                    and len(st.iter.args) == 2 and not st.iter.keywords):
+                continue
+            d_, k_, dflt = st.iter.func.value, st.iter.args[0], st.iter.args[1]
+            empty = (isinstance(dflt, (ast.Tuple, ast.List)) and not dflt.elts) \
+                or (isinstance(dflt, ast.Dict) and not dflt.keys) \
+                or (isinstance(dflt, ast.Call) and dotted(dflt.func) in (
+                    'set', 'frozenset', 'tuple', 'list') and not dflt.args)
+            dt = dotted(d_)
+            if not empty or any(dotted(x) == dt for s in st.body
+                                for x in ast.walk(s)) or any(
+                    isinstance(x, (ast.Break, ast.Return, ast.Continue))
+                    for s in st.body for x in ast.walk(s)):
+                continue
+            loop = ast.For(st.target, ast.Subscript(
+                _copy.deepcopy(d_), _copy.deepcopy(k_), ast.Load()),
+                st.body, [])
+            dele = ast.Delete([ast.Subscript(_copy.deepcopy(d_),
+                                             _copy.deepcopy(k_), ast.Del())])
+            new = ast.If(ast.Compare(_copy.deepcopy(k_), [ast.In()],
+                                     [_copy.deepcopy(d_)]), [loop, dele], [])
+            ast.copy_location(new, st)
+            for y in ast.walk(new):
+                if not hasattr(y, 'lineno'):
+                    ast.copy_location(y, st)
+            ast.fix_missing_locations(new)
+            body[body.index(st)] = new
+            log.append(f'{f.where}: `for .. in {dt}.pop(k, <empty>)` read as '
+                       'guarded loop + del')
+    for f in program.all_functions():
+        rewrite(f.node.body, f)
+
+
 def rotate_idiom(program, log):
     """`q.append(q.popleft())` on a deque known to be non-empty (an earlier
     statement of the same block returns when it is empty / has at most one
@@ -2303,7 +2356,7 @@ def run(program):
                  inline_simple_decorators,
                  typing_noops, relpath_abspath, sentinel_lookups, setdefault_fresh, mirror_locals,
                  rotate_idiom, drain_loops, stat_probe, any_all_loops,
-                 chainmap_first_hit,
+                 chainmap_first_hit, pop_default_loop,
                  split_parallel_assign,
                  inline_aliases, context_managers_to_try, rpartition_keys,
                  slices_of_islice,
